@@ -96,6 +96,19 @@ def run(chk, tier, seed):
         "".join("let c%d_%d = binom(%d, %d);\n" % (nn, k, nn, k) for nn in (5, 20, 40, 70) for k in range(0, nn + 1, max(1, nn // 10)) ) + \
         "".join("let d%d_%d = binom(%d, %d);\n" % (nn, k - 1, nn, k - 1) for nn in (5, 20, 40, 70) for k in range(1, nn + 1, max(1, nn // 10)) if (k - 1) % max(1, nn // 10) != 0)
     jobs.append({"id": "fact", "src": fsrc, "observe": NAMES.findall(fsrc)})
+    # integers that a double holds exactly: int -> float -> int (floor / ceil / trunc) is the identity on them
+    exact = set()
+    for k in (0, 1, 30, 31, 32, 52, 53, 54, 62, 63, 64, 65, 100, 127, 128, 511, 1000, 1023):
+        exact |= {2 ** k, -(2 ** k)}
+    for x in (2 ** 53 - 1, 2 ** 53 + 2, 2 ** 63 - 1024, 2 ** 63 + 2048, 2 ** 64 - 2048, 3 * 2 ** 70, 10 ** 15, 10 ** 22, (2 ** 53 - 1) * 2 ** 971, 7, 0):
+        exact |= {x, -x}
+    exact = sorted(x for x in exact if int(float(x)) == x)
+    if tier == "quick":
+        exact = [x for x in exact if abs(x) in (2 ** 63, 2 ** 31, 2 ** 53, 2 ** 64, 2 ** 63 - 1024, 2 ** 1023, 7, 0, 10 ** 22, 3 * 2 ** 70)]
+    xsrc = ""
+    for i, x in enumerate(exact):
+        xsrc += "let x%d = to_float(%s);\nlet xf%d = x%d.floor();\nlet xc%d = x%d.ceil();\nlet xt%d = x%d.trunc();\n" % (i, lit(x), i, i, i, i, i, i)
+    jobs.append({"id": "exactfloat", "src": xsrc, "observe": NAMES.findall(xsrc), "_exact": exact})
     res = vf.run_jobs([{k: v for k, v in j.items() if not k.startswith("_")} for j in jobs], "c14")
     chk.count(len(jobs))
     events, owner = [], []
@@ -112,6 +125,17 @@ def run(chk, tier, seed):
             continue
         v = o["values"]
         chk.nontrivial(j["src"])
+        if j["id"] == "exactfloat":
+            for i, x in enumerate(j["_exact"]):
+                for pre, fn in (("xf", "floor"), ("xc", "ceil"), ("xt", "trunc")):
+                    d = v.get("%s%d" % (pre, i), {})
+                    if d.get("t") != "int":
+                        chk.violation("%s(to_float(%d)) is not an integer: %s" % (fn, x, d), {"kind": "bigint", "source": j["src"], "binding": "%s%d" % (pre, i)},
+                                      finding_key="exactfloat:%s" % fn)
+                        continue
+                    ev(j, {"ev": "text", "a": limbs(x), "parsed": limbs(d["v"])}, "%s(to_float(%d))" % (fn, x))
+                    ev(j, {"ev": "repr", "a": limbs(d["v"]), "short": d["repr"] == "S"}, "representation of %s(to_float(%d)) = %s" % (fn, x, d["v"]))
+            continue
         if j["id"] == "fact":
             for k in range(1, 31):
                 ev(j, {"ev": "fact", "n": k, "r": limbs(v["f%d" % k]["v"]), "prev": limbs(v["f%d" % (k - 1)]["v"])}, "factorial(%d)" % k)
